@@ -315,3 +315,60 @@ Definition mrun_code (n : nat) (es : list nat) : option (N * N) :=
                 Some (fpn 2305843009213693951 1000003 flat, fpn 2147483647 48271 flat)
   | None => None
   end.
+
+(* ---- the zombie list at pointer level.  The model above keeps the list as a sequence; the code
+   keeps a doubly linked ring through cffi_zombie_head with the fields zombie_next / zombie_prev.
+   The straight-line pointer code of thread_canary_make_zombie and _thread_canary_detach_with_lock
+   is regenerated from the source into C36/Gen.v as programs over the statements below and shown
+   (C36/Proofs2.v) to implement append / removal / head of the sequence.
+   Nodes: 0 is &cffi_zombie_head, canary c is node S c. *)
+Inductive fld := FNext | FPrev.
+Inductive pvar := VOb | VLast | VP | VN | VHead.
+Inductive pstmt :=
+| PLoad (dst src : pvar) (f : fld)         (* dst = src->f *)
+| PStore (dst : pvar) (f : fld) (src : pvar) (* dst->f = src *)
+| PStoreNull (dst : pvar) (f : fld).       (* dst->f = NULL *)
+
+Record heap := mkHeap { hnext : nat -> option nat; hprev : nat -> option nat }.
+Definition penv := pvar -> option nat.
+Definition pvar_eqb (a b : pvar) : bool :=
+  match a, b with
+  | VOb, VOb | VLast, VLast | VP, VP | VN, VN | VHead, VHead => true
+  | _, _ => false
+  end.
+Definition setv (e : penv) (v : pvar) (x : option nat) : penv := fun v' => if pvar_eqb v' v then x else e v'.
+Definition getf (h : heap) (f : fld) (a : nat) : option nat :=
+  match f with FNext => hnext h a | FPrev => hprev h a end.
+Definition setf (h : heap) (f : fld) (a : nat) (x : option nat) : heap :=
+  match f with
+  | FNext => mkHeap (upd (hnext h) a x) (hprev h)
+  | FPrev => mkHeap (hnext h) (upd (hprev h) a x)
+  end.
+
+(* None = a NULL pointer is dereferenced *)
+Fixpoint exec_p (p : list pstmt) (e : penv) (h : heap) : option (penv * heap) :=
+  match p with
+  | [] => Some (e, h)
+  | PLoad dst src f :: rest =>
+      match e src with Some a => exec_p rest (setv e dst (getf h f a)) h | None => None end
+  | PStore dst f src :: rest =>
+      match e dst with Some a => exec_p rest e (setf h f a (e src)) | None => None end
+  | PStoreNull dst f :: rest =>
+      match e dst with Some a => exec_p rest e (setf h f a None) | None => None end
+  end.
+
+Definition env0 (ob : nat) : penv := fun v => match v with VOb => Some ob | VHead => Some 0 | _ => None end.
+
+(* f a = x1, f x1 = x2, ..., f xn = z *)
+Fixpoint chain (f : nat -> option nat) (a : nat) (l : list nat) (z : nat) : Prop :=
+  match l with
+  | [] => f a = Some z
+  | x :: r => f a = Some x /\ chain f x r z
+  end.
+
+(* the heap represents the sequence l (of nodes) as a ring through node 0, unlinked nodes have NULL fields *)
+Definition ring (h : heap) (l : list nat) : Prop :=
+  NoDup (0 :: l) /\ chain (hnext h) 0 l 0 /\ chain (hprev h) 0 (rev l) 0 /\
+  forall x, ~ In x (0 :: l) -> hnext h x = None /\ hprev h x = None.
+
+Definition heap0 : heap := mkHeap (upd (fun _ => None) 0 (Some 0)) (upd (fun _ => None) 0 (Some 0)).
